@@ -108,6 +108,14 @@ def sweep_impl(rep, tier, seed):
                 # band extraction labels
                 rep.case(("extract_bands", foff, start, nsamps))
                 names_b = fil.extract_bands(4, 8, 4, os.path.join(tmp, "ob"), **kw)
+                # more sub-bands than one batch of open files: labels must not depend on the batching
+                names_c = fil.extract_bands(2, 12, 2, os.path.join(tmp, "oc"), batch_size=2, **kw)
+                for i, nm in enumerate(names_c):
+                    out = read_out(nm)
+                    rep.check(close(out["fch1"], float(freqs[2 + 2 * i]), 1e-10) and out["nchans"] == 2 and abs(out["tstart"] - t0) < US5,
+                              "extract_bands (batched): band header (fch1 of first copied channel, nchans, tstart)",
+                              function="base.py::Filterbank.extract_bands", input=dict(fch1=fch1, foff=foff, band=i, batch_size=2),
+                              observed=dict(fch1=out["fch1"], tstart=out["tstart"]), required=float(freqs[2 + 2 * i]))
                 for i, nm in enumerate(names_b):
                     out = read_out(nm)
                     rep.check(close(out["fch1"], float(freqs[4 + 4 * i]), 1e-10) and out["nchans"] == 4 and abs(out["tstart"] - t0) < US5,
